@@ -126,8 +126,15 @@ func (am *YAMLAccountManager) Update(account hotline.Account, newLogin string) e
 		return err
 	}
 
-	if err := os.WriteFile(filepath.Join(am.accountDir, path.Join("/", newLogin)+".yaml"), out, 0644); err != nil {
+	// Write the new contents to a temporary file in the same directory and rename it over the account file,
+	// so that a crash leaves either the old or the new contents, never a truncated file.
+	accountFile := filepath.Join(am.accountDir, path.Join("/", newLogin)+".yaml")
+	tempFile := accountFile + ".tmp"
+	if err := os.WriteFile(tempFile, out, 0644); err != nil {
 		return fmt.Errorf("error writing account file: %w", err)
+	}
+	if err := os.Rename(tempFile, accountFile); err != nil {
+		return fmt.Errorf("error replacing account file: %w", err)
 	}
 
 	am.accounts[account.Login] = account
